@@ -8,8 +8,8 @@ from gen import i1_line, e_array
 from vlib import poly_from_points, poly_eval, Result
 
 ID = "C02"
-LEAN_MODULES = ["NdInterp.Props.C02", "NdInterp.Props.C03", "NdInterp.Props.RatTie", "NdInterp.Props.FormulaTie.SplSys", "NdInterp.Props.FormulaTie.SplEval", "NdInterp.Props.FormulaTie.PerSys", "NdInterp.Props.FormulaTie.TabSpec", "NdInterp.Props.FormulaTie.Ctl"]
-THEOREM_FILES = [("NdInterp/Props/C02.lean", "C02_"), ("NdInterp/Props/FormulaTie/SplSys.lean", "FT_spl_"), ("NdInterp/Props/FormulaTie/SplEval.lean", "FT_spl_"), ("NdInterp/Props/FormulaTie/PerSys.lean", "FT_per_three"), ("NdInterp/Props/FormulaTie/PerSys.lean", "FT_per_rows"), ("NdInterp/Props/FormulaTie/PerSys.lean", "FT_per_combine"), ("NdInterp/Props/FormulaTie/TabSpec.lean", "FT_tab_"), ("NdInterp/Props/FormulaTie/Ctl.lean", "FT_ctl_")]
+LEAN_MODULES = ["NdInterp.Props.C02Fl", "NdInterp.Props.C02", "NdInterp.Props.C03", "NdInterp.Props.RatTie", "NdInterp.Props.FormulaTie.SplSys", "NdInterp.Props.FormulaTie.SplEval", "NdInterp.Props.FormulaTie.PerSys", "NdInterp.Props.FormulaTie.TabSpec", "NdInterp.Props.FormulaTie.Ctl"]
+THEOREM_FILES = [("NdInterp/Props/C02Fl.lean", "C02_"), ("NdInterp/Props/C02.lean", "C02_"), ("NdInterp/Props/FormulaTie/SplSys.lean", "FT_spl_"), ("NdInterp/Props/FormulaTie/SplEval.lean", "FT_spl_"), ("NdInterp/Props/FormulaTie/PerSys.lean", "FT_per_three"), ("NdInterp/Props/FormulaTie/PerSys.lean", "FT_per_rows"), ("NdInterp/Props/FormulaTie/PerSys.lean", "FT_per_combine"), ("NdInterp/Props/FormulaTie/TabSpec.lean", "FT_tab_"), ("NdInterp/Props/FormulaTie/Ctl.lean", "FT_ctl_")]
 RULE = ("CubicSpline at Q, exact: n=3..12 (thorough ..40), axis kinds incl. mesh ratios up to 2^6, dyadic and rational data, every "
         "boundary selection (NotAKnot, Natural, Clamped, Periodic, Individual arrays with any Mixed pair incl. FirstDeriv/SecondDeriv "
         "values, different per lane), 0..2 trailing axes, static/dynamic dims, layouts. Queries: every knot and 5 samples per interval. "
@@ -17,8 +17,9 @@ RULE = ("CubicSpline at Q, exact: n=3..12 (thorough ..40), axis kinds incl. mesh
         "through the other 4; first and second derivatives of neighbouring fitted cubics agree at the common knot. f64 runs compared "
         "with the exact run of the same float inputs under a generous conditioning-scaled tolerance (a test, not a bound). "
         "non-trivial = every case (all have >= 2 intervals)")
-PARTIAL = ["no rounding bound is proved for the spline (it depends on the conditioning of the system): the f64 comparison is a test with "
-           "tolerance 2^-26 * scale", "periodic boundary: C2 at the interior knots and matching S', S'' at the ends are C03_periodic / "
+PARTIAL = ["rounding: the evaluation of a segment from given coefficients is bounded under the standard model of fp arithmetic (C02_eval_rounding: "
+           "102*u*max(|y_l|,|y_r|,|a|,|b|) inside the interval, 13 rounded operations); no bound is proved for the tridiagonal solve that "
+           "produces the coefficients (it depends on the conditioning of the system): the f64 comparison is a test with tolerance 2^-26 * scale", "periodic boundary: C2 at the interior knots and matching S', S'' at the ends are C03_periodic / "
            "C03_periodic3 (unique: C03_periodic_unique); evaluation and wrapping in Props/C07",
            "lanes: single-lane theorems; C08_spline_build_lanes carries them to every lane"]
 ASSUMPTIONS = ["axis length < 2^64"]
